@@ -11,6 +11,8 @@ import CpModel.Text.Scan
         `_parse_string_until_separator(name, offset, seps, str, None, may_end, ws)`;
         <seps> is a comma-separated list of hex strings (each one separator, `-` the empty one), `~` the empty list
         → `OK <length> <item hex|->`
+    TAQ / TUQ  the same two calls with `quote_aware=True` (same arguments, same answers)
+    TKQ        the cost model of the TAQ call (arguments and answer as TK)
     TC <sep set hex|-> <min|-> <max|-> <offset> <input hex>
         `_check_separators(name, offset, seps, min, max)` → `OK <count>`
     TN <input hex>
@@ -44,6 +46,16 @@ def textOp : List String → Option String
     pure (match parseStringUntilSeparator b off seps (mayEnd == "1") ws with
       | .ok (item, n) => s!"OK {n} {hexOrDash item}"
       | .error e => showErr e)
+  | ["TAQ", sep, ws, skip, mx, hex] => do
+    let sep ← bytesOfHex sep; let ws ← bytesOfHex ws; let mx ← optNat? mx; let b ← bytesOfHex hex
+    pure (match parseStringArrayQ b 0 sep ws (skip == "1") mx with
+      | .ok (items, off) => s!"OK {off} {showList (items.map hexOrDash)}"
+      | .error e => showErr e)
+  | ["TUQ", seps, mayEnd, ws, off, hex] => do
+    let seps ← sepList? seps; let ws ← bytesOfHex ws; let off ← off.toNat?; let b ← bytesOfHex hex
+    pure (match parseStringUntilSeparatorQ b off seps (mayEnd == "1") ws with
+      | .ok (item, n) => s!"OK {n} {hexOrDash item}"
+      | .error e => showErr e)
   | ["TC", seps, mn, mx, off, hex] => do
     let seps ← bytesOfHex seps; let mn ← optNat? mn; let mx ← optNat? mx; let off ← off.toNat?
     let b ← bytesOfHex hex
@@ -63,6 +75,9 @@ def textOp : List String → Option String
   | ["TK", sep, ws, skip, hex] => do
     let sep ← bytesOfHex sep; let ws ← bytesOfHex ws; let b ← bytesOfHex hex
     pure s!"OK {arrayTicks b 0 sep ws (skip == "1") none}"
+  | ["TKQ", sep, ws, skip, hex] => do
+    let sep ← bytesOfHex sep; let ws ← bytesOfHex ws; let b ← bytesOfHex hex
+    pure s!"OK {arrayTicksQ b 0 sep ws (skip == "1") none}"
   | ["TS", value, off, hex] => do
     let value ← bytesOfHex value; let off ← off.toNat?; let b ← bytesOfHex hex
     pure (match parseString b off value with
